@@ -58,4 +58,22 @@ def ofExprs (jn : JsonNum N) : List (Expr N) → List (Json N)
   | e :: es => ofExpr jn e :: ofExprs jn es
 end
 
+mutual
+/-- `impl Visitor for ValueVisitor` through `deserialize_any`: serde_json calls visit_bool / visit_str / visit_u64 or visit_i64 (integer tokens) / visit_f64 / visit_seq;
+    a kind without a visit_ method (null, objects) is refused by the default method -/
+def toValue (jn : JsonNum N) : Json N → Option (Value N)
+  | .bool b => some (.bool b)
+  | .str s => some (.str s)
+  | .num x => some (.num x)
+  | .int i => some (.num (jn.ofInt i))
+  | .arr xs => (toValues jn xs).map .arr
+  | .null => none
+  | .obj _ => none
+def toValues (jn : JsonNum N) : List (Json N) → Option (List (Value N))
+  | [] => some []
+  | j :: js => match toValue jn j with
+    | some v => (toValues jn js).map (v :: ·)
+    | none => none
+end
+
 end Slac.Generated.SrcSerde
